@@ -1442,6 +1442,27 @@ fn k_zeroize_probe(sc: &J, r: &R) {
                 }
             }
         }
+        // raw input: ANY 8 consecutive bytes of what was absorbed (the block buffer may keep stale tails)
+        if residue.is_empty() && pos >= 8 {
+            let mut wins: std::collections::HashSet<[u8; 8]> = std::collections::HashSet::new();
+            for w in data[..pos].windows(8) {
+                if w.iter().any(|b| *b != 0) {
+                    let mut a = [0u8; 8];
+                    a.copy_from_slice(w);
+                    wins.insert(a);
+                }
+            }
+            for (what, obj) in [("Hasher", raw(&h)), ("OutputReader", raw(&rd)), ("Hash", raw(&hash))] {
+                for (i, w) in obj.windows(8).enumerate() {
+                    let mut a = [0u8; 8];
+                    a.copy_from_slice(w);
+                    if wins.contains(&a) {
+                        residue = format!("{}: 8 input bytes at object offset {}", what, i);
+                        break;
+                    }
+                }
+            }
+        }
         set(r, "residue", (!residue.is_empty()).to_string());
         set(r, "residue_what", esc(&residue));
         set(r, "skipped", "false".into());
